@@ -514,6 +514,13 @@ impl Sbbf {
             }
         };
 
+        if bitset.len() < size_of::<Block>() {
+            return Err(ParquetError::General(format!(
+                "Bloom filter bitset of {} bytes is shorter than one block",
+                bitset.len()
+            )));
+        }
+
         Ok(Some(Self::new(&bitset)))
     }
 
